@@ -9,33 +9,58 @@ Model: lean/EupsModel/Model/FsEff.lean through the driver handler "c08".
 Oracle (ii), model-free: after the kill the read-only listing succeeds; every declaration and tag the command
 did not target is there exactly as before and nothing else appeared; every record file the command may touch
 reads as before the command or as after the completed command — never empty, truncated or anything else."""
+import io
 import json
 import os
+import pickle
 import re
 import shutil
+import time
 
 from . import common, lib_records, lib_fstrace
 from .common import parallel_map
 
 RULE = ("cases = (database state reached by a random history of 0-9 completed commands, sometimes with one killed "
         "command in it (stale temporary file); one mutating command: declare / declare -t / tag (re)assignment / "
-        "untag with or without version / undeclare, over 2 products x 2 versions x 2 unrelated flavors x 2 tags; "
-        "every crash point k of that command).  Non-trivial: the command has at least one effect; distinct = "
+        "untag with or without version / undeclare with or without version / forced declare with a table stream (interned table file, 2 contents), over 2 products x 2 versions x 2 unrelated flavors x 2 tags; "
+        "every crash point k of that command, INCLUDING every effect of every save of the product cache (utils.AtomicFile: "
+        "temporary file, buffered write, fsync, close, rename, per flavor); after each kill a fresh reader that finds the "
+        "leftover cache, then one that rebuilds it).  Non-trivial: the command has at least one effect; distinct = "
         "distinct (state, command) digests; evaluations counts crash points")
 TRUSTED = ["a kill is injected between two Python-level effects (audit events open/rename/remove/mkdir/rmdir and the "
            "wrapped write/close of the record writers); every print of a writer is flushed to disk as one chunk",
            "kernel-level torn writes, power loss and fsync ordering are not exhibited",
-           "POSIX rename/unlink/mkdir/rmdir are atomic; a directory listing sees a consistent snapshot"]
+           "POSIX rename/unlink/mkdir/rmdir are atomic; a directory listing sees a consistent snapshot",
+           "the cache files are written through Python's buffered file object, untouched by the tracer: the injected kill "
+           "(os._exit) loses the data still in that buffer, as a killed eups process would; write/fsync/close of that object are "
+           "crash points; a pickle larger than the buffer (8 KiB) would reach the temporary file in part before the close - "
+           "the model keeps the temporary file empty until the close, which is not observable (temporary cache files are not compared)",
+           "the copy of an interned table file (shutil.copy2 inside utils.copyfile) is one effect: no kill is injected between "
+           "its open and the end of the data (the model has the empty intermediate state; the witness for the pinned "
+           "copyfile is the state after its unlink)"]
 ASSUMPTIONS = ["one writable stack, no user tags, the two flavors are unrelated (neither is a fallback of the other)",
-               "the user's cache directory is removed before every traced command (cache files are C07's subject); "
-               "the reader's cache directory is removed too, so its listing is rebuilt from the record files"]
+               "the user's cache directory is removed before every traced command, whose Eups object then builds it anew "
+               "(20 ms before the command starts); which flavors' cache files that object holds is read from it and given "
+               "to the model as part of the initial state; after a kill the first reader finds the cache as it was left, "
+               "the second one removes it and rebuilds its listing from the record files",
+               "a temporary file left beside an interned table file is not compared (nothing lists that directory); the "
+               "creation of the directories that hold an interned table file is not modelled"]
+
+MIRRORS = [("python/eups/db/VersionFile.py", "*"), ("python/eups/db/ChainFile.py", "*"), ("python/eups/db/Database.py", "*"),
+           ("python/eups/tags.py", "*"), ("python/eups/Eups.py", "Eups.declare"), ("python/eups/Eups.py", "Eups.undeclare"),
+           ("python/eups/Eups.py", "Eups.assignTag"), ("python/eups/Eups.py", "Eups.unassignTag"),
+           ("python/eups/utils.py", "copyfile"), ("python/eups/utils.py", "AtomicFile"),
+           ("python/eups/stack/ProductStack.py", "ProductStack.persist"), ("python/eups/stack/ProductStack.py", "ProductStack.save")]
 
 PRODUCTS = ["pa", "pb"]
 VERSIONS = ["1", "2"]
 FLAVORS = ["Linux", "DarwinX86"]
 TAGS = ["current", "beta"]
 CORPUS = os.path.join(common.VERIF, "corpus", "C08")
-TMP_RE = re.compile(r"^(.*\.(?:version|chain))\.tmp(\d+)$")
+TMP_RE = re.compile(r"^(.*\.(?:version|chain|table))\.tmp(\d+)$")
+# table files handed over as a stream (`declare -M -`): Eups.declare copies them into ups_db/<flavor>/<p>/<v>/ups/
+TABLES = ["setupOptional(zlib)\n", "setupOptional(zlib)\nenvSet(C08_X, 1)\n"]
+TABLES_ON_DISK = ["".join(l + " " for l in t.splitlines(True)) for t in TABLES]     # print(line, end=' ') in Eups.declare
 
 
 # ---- commands -------------------------------------------------------------------------------------------
@@ -49,6 +74,11 @@ def all_commands():
                     out.append({"op": "declare", "p": p, "v": v, "f": f, "tag": tag, "force": False})
                 out.append({"op": "declare", "p": p, "v": v, "f": f, "tag": None, "force": True})
                 out.append({"op": "undeclare", "p": p, "v": v, "f": f})
+                for tag in (None, 1):
+                    for tab in range(2):
+                        out.append({"op": "declaretab", "p": p, "v": v, "f": f, "tag": tag, "tab": tab})
+        for f in range(2):
+            out.append({"op": "undeclare", "p": p, "v": None, "f": f})      # version omitted
         for t in range(2):
             for f in range(2):
                 for v in (None, 0, 1):
@@ -59,7 +89,7 @@ def all_commands():
 def gen_history(rng):
     n = rng.choice([0, 1, 2, 3, 4, 5, 6, 7, 8, 9])
     cmds = all_commands()
-    decl = [c for c in cmds if c["op"] == "declare"]
+    decl = [c for c in cmds if c["op"] == "declare"] * 3 + [c for c in cmds if c["op"] == "declaretab"]
     hist = []
     for i in range(n):
         c = dict(rng.choice(decl if rng.random() < 0.7 else cmds))
@@ -75,10 +105,14 @@ def _exec(e, stack, cmd):
         v = VERSIONS[cmd["v"]]
         d = os.path.join(stack, f, p, v)
         e.declare(p, v, d, tag=(TAGS[cmd["tag"]] if cmd["tag"] is not None else None))
+    elif cmd["op"] == "declaretab":
+        v = VERSIONS[cmd["v"]]
+        e.declare(p, v, os.path.join(stack, f, p, v), tablefile=io.StringIO(TABLES[cmd["tab"]]),
+                  tag=(TAGS[cmd["tag"]] if cmd["tag"] is not None else None))
     elif cmd["op"] == "untag":
         e.undeclare(p, VERSIONS[cmd["v"]] if cmd["v"] is not None else None, tag=TAGS[cmd["t"]])
     elif cmd["op"] == "undeclare":
-        e.undeclare(p, VERSIONS[cmd["v"]])
+        e.undeclare(p, VERSIONS[cmd["v"]] if cmd["v"] is not None else None)
     else:
         raise ValueError(cmd)
 
@@ -88,16 +122,23 @@ def _child_cmd(stack, userdata, cmd, crash_at, trace):
     os.chdir(os.path.dirname(stack))
     shutil.rmtree(os.path.join(userdata, "_caches_"), ignore_errors=True)
     lib_records.patch_stamps()
-    tr = lib_fstrace.Tracer(os.path.join(stack, "ups_db"), crash_at)
-    e = common.new_eups(flavor=FLAVORS[cmd["f"]], force=bool(cmd.get("force")))
+    tr = lib_fstrace.Tracer(os.path.join(stack, "ups_db"), crash_at, also=[os.path.join(userdata, "_caches_")])
+    e = common.new_eups(flavor=FLAVORS[cmd["f"]], force=bool(cmd.get("force")) or cmd["op"] == "declaretab")
+    time.sleep(0.02)      # the cache files this Eups has just written are older than anything the command writes
+    try:
+        cache_flavors = list(e.versions[stack].getFlavors())       # the cache files this Eups object holds and will save
+    except Exception:  # noqa
+        cache_flavors = None
     tr.install()
+    tr.wrap_copy2(common.eups_mod("utils"))
+    tr.wrap_atomicfile(common.eups_mod("utils"))
     err = None
     try:
         _exec(e, stack, cmd)
     except Exception as ex:  # noqa
         err = lib_records.exc_name(ex)
     tr.active = False
-    return {"events": tr.events, "err": err, "pid": os.getpid()}
+    return {"events": tr.events, "err": err, "pid": os.getpid(), "cache_flavors": cache_flavors}
 
 
 def _child_read(stack, userdata):
@@ -118,6 +159,52 @@ def _child_read(stack, userdata):
     return out
 
 
+def _child_read_cached(stack, userdata):
+    """A later read-only command of the same user, in a fresh process, *with the product cache as the killed command
+    left it*: `eups list` for each flavor and findProduct of every (product, version) through the cache."""
+    lib_records.silence()
+    os.chdir(os.path.dirname(stack))
+    out = []
+    for f in FLAVORS:
+        try:
+            common.eups_mod("db.Database")._databases.clear()
+            e = common.new_eups(flavor=f)
+            prods = e.findProducts()
+            lst = sorted([p.name, p.version, sorted(set(str(t) for t in p.tags))] for p in prods if p.flavor == f)
+            one = sorted([p, v] for p in PRODUCTS for v in VERSIONS
+                         if (lambda q: q is not None and q.flavor == f)(e.findProduct(p, v)))
+            if one != sorted([x[0], x[1]] for x in lst):
+                out.append("MISMATCH: list %r, findProduct %r" % (lst, one))
+            else:
+                out.append(lst)
+        except Exception as ex:  # noqa
+            out.append("EXC:" + lib_records.exc_name(ex))
+    return out
+
+
+CACHE_FLAVORS = FLAVORS + ["generic"]
+
+
+def cache_snapshot(stack, userdata):
+    """State of the product cache files of the stack: {flavor: absent | empty | complete | garbled}."""
+    d = os.path.join(userdata, "_caches_") + stack
+    out = {}
+    for f in CACHE_FLAVORS:
+        fn = os.path.join(d, f + ".pickleDB1_3_0")
+        if not os.path.exists(fn):
+            out[f] = "absent"
+        elif os.path.getsize(fn) == 0:
+            out[f] = "empty"
+        else:
+            try:
+                with open(fn, "rb") as fh:
+                    pickle.load(fh)
+                out[f] = "complete"
+            except Exception:  # noqa
+                out[f] = "garbled"
+    return out
+
+
 # ---- reading the database directory directly ----------------------------------------------------------------
 
 def _ids(name, kind):
@@ -134,9 +221,28 @@ def snapshot(stack, stale_ok=True, own_pid=None):
     CF = common.eups_mod("db.ChainFile").ChainFile
     db = os.path.join(stack, "ups_db")
     dirs, files, sem, odd = [], [], {}, []
+    tabs = []
+    for fi, fl in enumerate(FLAVORS):
+        for pi, pn in enumerate(PRODUCTS):
+            for vi, vn in enumerate(VERSIONS):
+                ud = os.path.join(db, fl, pn, vn, "ups")
+                if not os.path.isdir(ud):
+                    continue
+                for fn in sorted(os.listdir(ud)):
+                    full = os.path.join(ud, fn)
+                    key = "T:%s/%s/%s" % (fl, pn, vn)
+                    if fn == pn + ".table":
+                        txt = lib_records.read_text(full)
+                        c = "empty" if txt == "" else {"tab": TABLES_ON_DISK.index(txt)} if txt in TABLES_ON_DISK else "part"
+                        tabs.append([["main", "t", pi, vi, fi], c])
+                        sem[key] = c["tab"] if isinstance(c, dict) else ("EMPTY" if c == "empty" else "GARBLED")
+                    elif TMP_RE.match(fn) and TMP_RE.match(fn).group(1) == pn + ".table":
+                        tabs.append([["tmp", "t", pi, vi, fi], "tmp"])
+                    else:
+                        odd.append("%s/%s/%s/ups/%s" % (fl, pn, vn, fn))
     for pn in os.listdir(db):
         pd = os.path.join(db, pn)
-        if not os.path.isdir(pd):
+        if not os.path.isdir(pd) or pn in FLAVORS:
             continue
         p = _ids(pn, "p")
         if p is None:
@@ -188,7 +294,7 @@ def snapshot(stack, stale_ok=True, own_pid=None):
             except Exception as ex:  # noqa
                 files.append([["main"] + rp, "part"])
                 sem[key] = "GARBLED"
-    return {"dirs": dirs, "files": files, "sem": sem, "odd": odd}
+    return {"dirs": dirs, "files": files, "tabs": tabs, "sem": sem, "odd": odd}
 
 
 # ---- one (state, command) case on the implementation ----------------------------------------------------------
@@ -218,22 +324,44 @@ def run_group(group):
         init = snapshot(S)
         for cmd in group["cmds"]:
             _restore(db, saved)
-            out.append(_run_cmd(S, ud, db, saved, init, cmd))
+            out.append(_run_cmd(S, ud, db, saved, init, cmd, group.get("sample", False)))
         return out
     finally:
         _LISTINGS.clear()
         common.rmtree(R)
 
 
-def _run_cmd(S, ud, db, saved, init, cmd):
+def _crash_points(events, cmd, sample):
+    """All crash points; or, for the random histories of the quick portion, a sample: the first one, every point
+    right after an effect that changes something in place (rename, unlink, mkdir, rmdir), every point inside the
+    LAST save of the cache, and a third of the others (chosen by a digest of the command, so that a replay finds
+    the same points).  The corpus and the enlarged budget (thorough tier, escalated run) use all of them."""
+    n = len(events)
+    if not sample or n <= 12:
+        return list(range(n))
+    last_save = max([i for i, e in enumerate(events) if e[0] == "creat" and any("/_caches_/" in x for x in e[1:])] or [n])
+    ks = []
+    for k in range(n):
+        prev = events[k - 1] if k > 0 else None
+        if k == 0 or prev[0] in ("rename", "unlink", "mkdir", "rmdir") or k >= last_save \
+                or int(common.digest(json.dumps([cmd, k], sort_keys=True))[:6], 16) % 3 == 0:
+            ks.append(k)
+    return ks
+
+
+def _run_cmd(S, ud, db, saved, init, cmd, sample=False):
     full = common.in_child(_child_cmd, S, ud, cmd, None, True)
     if full[0] != "ok":
         return {"init": init, "full": "child " + str(full[:3])}
     events = full[1]["events"]
-    obs = {"init": init, "events": events, "err": full[1]["err"], "states": []}
+    obs = {"init": init, "events": events, "err": full[1]["err"], "states": [], "cache_flavors": full[1].get("cache_flavors")}
     obs["final"] = snapshot(S, own_pid=full[1]["pid"])
+    obs["final"]["cache"] = cache_snapshot(S, ud)
+    obs["final_cached_listing"] = _reader_cached(S, ud)
     obs["final_listing"] = _reader(S, ud)
-    for k in range(len(events)):
+    obs["crash_points"] = [len(events), 0]
+    for k in _crash_points(events, cmd, sample):
+        obs["crash_points"][1] += 1
         _restore(db, saved)
         r = common.in_child(_child_cmd, S, ud, cmd, k, True)
         if not (r[0] == "died" and (r[1] >> 8) == lib_fstrace.CRASH_STATUS):
@@ -241,7 +369,17 @@ def _run_cmd(S, ud, db, saved, init, cmd):
             continue
         # the killed child's temporary file is the one that was not there before
         st = _mark_own_tmp(snapshot(S), init)
-        obs["states"].append({"k": k, "snap": st, "listing": _reader(S, ud)})
+        st["cache"] = cache_snapshot(S, ud)
+        # the reader that finds the leftover cache runs first.  It is run where the last effect carried out changed a
+        # record file in place, a directory or anything of the cache; after an effect on a *temporary* record file (its
+        # creation, a write, its close) the records in place and the cache are what they were one crash point earlier
+        last = events[k - 1] if k > 0 else None
+        if last is None or last[0] in ("rename", "unlink", "mkdir", "rmdir") or any("/_caches_/" in x for x in last[1:]) \
+                or not obs["states"] or obs["states"][-1]["k"] != k - 1 or "cached_listing" not in obs["states"][-1]:
+            cached = _reader_cached(S, ud)
+        else:
+            cached = obs["states"][-1]["cached_listing"]
+        obs["states"].append({"k": k, "snap": st, "cached_listing": cached, "listing": _reader(S, ud)})
     return obs
 
 
@@ -276,6 +414,24 @@ def _dir_digest(db):
     return common.digest(repr(items))
 
 
+def _reader_cached(S, ud):
+    """The listing of a fresh reader that finds the user's cache directory as it is; one reader process per distinct
+    content of database directory + cache directory (time stamps of the cache files included)."""
+    cd = os.path.join(ud, "_caches_")
+    items = []
+    for d, dirs, files in os.walk(cd):
+        dirs.sort()
+        for f in sorted(files):
+            full = os.path.join(d, f)
+            with open(full, "rb") as fh:
+                items.append((os.path.relpath(full, cd), fh.read(), os.stat(full).st_mtime_ns))
+    key = ("cached", S, _dir_digest(os.path.join(S, "ups_db")), common.digest(repr(items)))
+    if key not in _LISTINGS:
+        r = common.in_child(_child_read_cached, S, ud)
+        _LISTINGS[key] = r[1] if r[0] == "ok" else "EXC:child " + str(r[1])
+    return _LISTINGS[key]
+
+
 def _reader(S, ud):
     """The listing of a fresh reader; one reader process per distinct content of the database directory."""
     key = (S, _dir_digest(os.path.join(S, "ups_db")))
@@ -287,11 +443,34 @@ def _reader(S, ud):
 
 # ---- canonical forms -----------------------------------------------------------------------------------------
 
+def _cache_path(s):
+    """['cmain', flavor] / ['ctmp'] for a path below the user's cache directory, else None."""
+    if "/_caches_/" not in s:
+        return None
+    base = os.path.basename(s)
+    if base.endswith(".pickleDB1_3_0"):
+        f = base[:-len(".pickleDB1_3_0")]
+        return ["cmain", CACHE_FLAVORS.index(f) if f in CACHE_FLAVORS else f]
+    if base.endswith(".tmp"):
+        return ["ctmp"]
+    return ["cother", base]
+
+
 def canon_event(ev):
     kind = ev[0]
+    if any(_cache_path(x) is not None for x in ev[1:]):
+        return ["cache", kind] + [_cache_path(x) for x in ev[1:]]
 
     def path(s):
         pn, fn = s.split("/", 1)
+        if pn in FLAVORS:                      # <flavor>/<p>/<v>/ups/<p>.table[.tmpN]
+            parts = fn.split("/")
+            if len(parts) == 4 and parts[2] == "ups":
+                m = TMP_RE.match(parts[3])
+                base = m.group(1) if m else parts[3]
+                if base == parts[0] + ".table" and _ids(parts[0], "p") is not None and _ids(parts[1], "v") is not None:
+                    return (["tmp"] if m else ["main"]) + ["t", _ids(parts[0], "p"), _ids(parts[1], "v"), FLAVORS.index(pn)]
+            return ["other", s]
         m = TMP_RE.match(fn)
         base = m.group(1) if m else fn
         p = _ids(pn, "p")
@@ -302,6 +481,8 @@ def canon_event(ev):
         else:
             return ["other", s]
         return (["tmp"] if m else ["main"]) + rp
+    if kind == "mkdir" and ev[1].split("/")[0] in FLAVORS:
+        return None                # os.makedirs of the directories that hold an interned table file: no reader looks at them
     if kind in ("mkdir", "rmdir"):
         return [kind, _ids(ev[1], "p") if _ids(ev[1], "p") is not None else ev[1]]
     if kind == "rename":
@@ -311,6 +492,22 @@ def canon_event(ev):
 
 def canon_model_eff(e):
     return e[:2] if e[0] == "write" else e
+
+
+def canon_tabs(tabs):
+    """Interned table files: the files themselves; a temporary file beside one is seen by no reader and by no command
+    (nothing lists that directory), so its presence is not compared."""
+    return sorted(([p, c] for p, c in (tabs or []) if p[0] == "main"), key=json.dumps)
+
+
+def canon_cache(c):
+    """Cache files in place: {flavor id: complete | empty | garbled}; from a snapshot ({name: status}) or from the model
+    ([[id, status], ...]); absent files are left out."""
+    if c is None:
+        return None
+    if isinstance(c, dict):
+        return sorted([CACHE_FLAVORS.index(f), s_] for f, s_ in c.items() if s_ != "absent")
+    return sorted([f, s_] for f, s_ in c)
 
 
 def canon_fs(files, dirs):
@@ -352,6 +549,8 @@ def sem_state(snap):
     """Declarations {(p, v, f): paths} and tag assignments {(t, p, f): v} readable from the record files."""
     D, T, bad = {}, {}, []
     for key, s in snap["sem"].items():
+        if key.startswith("T:"):
+            continue                      # interned table files: table_state()
         pn, fn = key.split("/", 1)
         if not isinstance(s, dict):
             bad.append(key)
@@ -365,11 +564,16 @@ def sem_state(snap):
     return D, T, bad
 
 
+def table_state(snap):
+    """{(flavor, product, version): content number | "EMPTY" | "GARBLED"} of the interned table files."""
+    return {tuple(k[2:].split("/")): v for k, v in snap["sem"].items() if k.startswith("T:")}
+
+
 def targeted(cmd, D0, T0):
     """What the command is allowed to change (from its structured description and the prior state only)."""
     p, f = PRODUCTS[cmd["p"]], FLAVORS[cmd["f"]]
     decls, tags, recs = set(), set(), set()
-    if cmd["op"] == "declare":
+    if cmd["op"] in ("declare", "declaretab"):
         v = VERSIONS[cmd["v"]]
         decls.add((p, v, f))
         recs.add("%s/%s.version" % (p, v))
@@ -383,7 +587,14 @@ def targeted(cmd, D0, T0):
         tags.add((TAGS[cmd["t"]], p, f))
         recs.add("%s/%s.chain" % (p, TAGS[cmd["t"]]))
     else:
-        v = VERSIONS[cmd["v"]]
+        if cmd["v"] is not None:
+            v = VERSIONS[cmd["v"]]
+        else:
+            # version omitted: the command acts on the only version declared for the flavor, and on nothing otherwise
+            vs = sorted(k[1] for k in D0 if k[0] == p and k[2] == f)
+            if len(vs) != 1:
+                return decls, tags, recs
+            v = vs[0]
         decls.add((p, v, f))
         recs.add("%s/%s.version" % (p, v))
         for (t, p_, f_), v_ in T0.items():
@@ -431,13 +642,36 @@ def oracle(cmd, obs, st):
                                for (p, v, f_) in Dk if f_ == f))
         if lst != want:
             yield ("reader_reports_files", None, "listing %r, the record files say %r" % (lst, want))
+    # the product cache the killed command leaves behind: every cache file is a complete pickle (or absent), and a
+    # fresh reader of the same user - which finds that cache - succeeds and reports what the record files say
+    for f, cs in sorted(st["snap"].get("cache", {}).items()):
+        if cs in ("empty", "garbled"):
+            yield ("cache_file_complete", None, "cache file of flavor %s is %s after the kill" % (f, cs))
+    cl = st.get("cached_listing")
+    if cl is not None:
+        if not isinstance(cl, list) or any(not isinstance(x, list) for x in cl):
+            yield ("cached_reader_succeeds", None, "listing through the cache left by the killed command: %r" % (cl,))
+        elif isinstance(lst, list) and all(isinstance(x, list) for x in lst) and cl != lst:
+            yield ("cached_reader_agrees_with_files", None, "through the cache: %r, from the record files: %r" % (cl, lst))
+    # interned table files: every one the command does not replace is as before; the one it replaces holds its old
+    # or its new content (absent only if it was absent before)
+    X0, Xk, Xf = table_state(init), table_state(st["snap"]), table_state(final)
+    tkey = (FLAVORS[cmd["f"]], PRODUCTS[cmd["p"]], VERSIONS[cmd["v"]]) if cmd["op"] == "declaretab" else None
+    for key in sorted(set(X0) | set(Xk)):
+        if key != tkey and Xk.get(key, "ABSENT") != X0.get(key, "ABSENT"):
+            yield ("frame_table", None, "table file of %s %s %s not targeted, was %r, now %r" % (key[1], key[2], key[0], X0.get(key, "ABSENT"), Xk.get(key, "ABSENT")))
+    if tkey is not None:
+        now, old, new = Xk.get(tkey, "ABSENT"), X0.get(tkey, "ABSENT"), Xf.get(tkey, "ABSENT")
+        if now != old and now != new:
+            yield ("table_old_or_new", None, "interned table file of %s %s %s reads %r; before: %r, after the completed command: %r"
+                   % (tkey[1], tkey[2], tkey[0], now, old, new))
     for key in sorted(recs):
         now, old, new = rec_sem(st["snap"], key), rec_sem(init, key), rec_sem(final, key)
         if now != old and now != new:
             finding = None
             # D11: a tag that is already assigned for this flavor is assigned again (moved or re-asserted): the
             # chain is seen without this flavor's entry between the removal and the final rewrite
-            if cmd["op"] == "declare" and key.endswith(".chain"):
+            if cmd["op"] in ("declare", "declaretab") and key.endswith(".chain"):
                 t = key.split("/")[1][:-6]
                 f = FLAVORS[cmd["f"]]
                 if (t, PRODUCTS[cmd["p"]], f) in T0 and isinstance(old, dict):
@@ -454,14 +688,14 @@ def _work(groups):
     return [run_group(g) for g in groups]
 
 
-def evaluate(ctx, cases, workers=None):
+def evaluate(ctx, cases, workers=None, sample=False):
     """cases = [{"history", "cmd"}]; cases with the same history share one construction of the state."""
     groups, index = [], {}
     for i, c in enumerate(cases):
         key = json.dumps(c["history"], sort_keys=True)
         if key not in index:
             index[key] = len(groups)
-            groups.append({"history": c["history"], "cmds": [], "ix": []})
+            groups.append({"history": c["history"], "cmds": [], "ix": [], "sample": sample})
         g = groups[index[key]]
         g["cmds"].append(c["cmd"])
         g["ix"].append(i)
@@ -481,7 +715,15 @@ def evaluate(ctx, cases, workers=None):
             g = groups[k + j * nw]
             for ix, o in zip(g["ix"], obs_list):
                 impl[ix] = o
-    reqs = [{"m": "c08", "atomic": True, "fs": model_fs_input(o["init"]), "cmd": c["cmd"], "flavors": [0, 1]}
+    # the cache files the traced process holds and saves (ProductStack.getFlavors() of its Eups object, read before the
+    # command starts: part of the initial state, like the directory-listing order)
+    def cfl(o):
+        l = o.get("cache_flavors")
+        if not l or any(f not in CACHE_FLAVORS for f in l):
+            raise common.InfraError("flavors of the product cache not observed: %r" % (l,))
+        return [CACHE_FLAVORS.index(f) for f in l]
+    reqs = [{"m": "c08", "atomic": True, "fs": model_fs_input(o["init"]), "tabs": canon_tabs(o["init"].get("tabs")),
+             "cmd": c["cmd"], "flavors": [0, 1], "cache_flavors": cfl(o)}
             for c, o in zip(cases, impl)]
     answers = ctx.lean.ask_many(reqs)
     for c, o, a in zip(cases, impl, answers):
@@ -497,10 +739,40 @@ def check_case(ctx, case, obs, ans):
         raise common.InfraError("traced command did not return: %s" % obs.get("full"))
     if obs["init"]["odd"]:
         raise common.InfraError("unexpected entries in the database directory: %s" % obs["init"]["odd"])
-    impl_eff = [canon_event(e) for e in obs["events"]]
+    raw_eff = [canon_event(e) for e in obs["events"]]
+    ncache = sum(1 for e in raw_eff if e is not None and e[0] == "cache")
+    ctx.hist("cache-crash-points=%s" % ("0" if ncache == 0 else "1-10" if ncache <= 10 else "11-20" if ncache <= 20 else "21+"))
+    for e in raw_eff:
+        if e is not None and e[0] == "cache" and e[1] == "rename" and e[-1][0] == "cmain":
+            ctx.hist("cache-save=%s" % (CACHE_FLAVORS[e[-1][1]] if isinstance(e[-1][1], int) else e[-1][1]))
+    # pickle.dump writes the buffered file object in one or several calls: consecutive writes to the same temporary
+    # cache file are one effect (nothing reaches the disk at any of them)
+    all_eff = []
+    for i, e in enumerate(raw_eff):
+        if e is not None and e[0] == "cache" and e[1] == "write" and i > 0 and raw_eff[i - 1] == e:
+            all_eff.append(None)
+        else:
+            all_eff.append(e)
+    impl_eff = [e for e in all_eff if e is not None]
+    # crash point k of the implementation (an index into its events) = crash point kmap[k] of the model (events that
+    # are not modelled - creation of the directories of an interned table file - change nothing a reader sees)
+    kmap, cnt = [], 0
+    for e in all_eff:
+        kmap.append(cnt)
+        cnt += e is not None
+    kmap.append(cnt)
     mo_eff = [canon_model_eff(e) for e in ans["effects"]]
     n = len(impl_eff)
-    ctx.hist("cmd=%s%s" % (cmd["op"], "+tag" if cmd.get("tag") is not None else ("+force" if cmd.get("force") else "")))
+    ctx.hist("cmd=%s%s" % (cmd["op"], "+tag" if cmd.get("tag") is not None else ("+force" if cmd.get("force") else
+                                          "-noversion" if cmd["op"] not in ("declare", "declaretab") and cmd.get("v") is None else "")))
+    if obs["init"].get("tabs"):
+        ctx.hist("state=with-interned-table")
+    if obs.get("crash_points"):
+        ctx.hist("crash-points-all", obs["crash_points"][0])
+        ctx.hist("crash-points-run", obs["crash_points"][1])
+    if cmd["op"] == "declaretab":
+        old_t = [c for p_, c in obs["init"].get("tabs", []) if p_ == ["main", "t", cmd["p"], cmd["v"], cmd["f"]]]
+        ctx.hist("table=%s" % ("new" if not old_t else "same" if old_t[0] == {"tab": cmd["tab"]} else "replaced"))
     ctx.hist("effects=%s" % ("0" if n == 0 else "1-5" if n <= 5 else "6-15" if n <= 15 else "16+"))
     if obs["err"]:
         ctx.hist("outcome=" + obs["err"])
@@ -520,8 +792,16 @@ def check_case(ctx, case, obs, ans):
         if canon_fs(obs["final"]["files"], obs["final"]["dirs"]) != canon_fs(fin_m["fs"]["files"], fin_m["fs"]["dirs"]):
             ctx.disagree("final_state", inp, canon_fs(obs["final"]["files"], obs["final"]["dirs"]),
                          canon_fs(fin_m["fs"]["files"], fin_m["fs"]["dirs"]))
+        if canon_cache(obs["final"].get("cache")) != canon_cache(fin_m.get("cache")):
+            ctx.disagree("final_cache", inp, canon_cache(obs["final"].get("cache")), canon_cache(fin_m.get("cache")))
+        if canon_tabs(obs["final"].get("tabs")) != canon_tabs(fin_m.get("tabs")):
+            ctx.disagree("final_tables", inp, canon_tabs(obs["final"].get("tabs")), canon_tabs(fin_m.get("tabs")))
         if obs["final_listing"] != model_listing(fin_m["listing"]):
             ctx.disagree("final_listing", inp, obs["final_listing"], model_listing(fin_m["listing"]))
+    if obs.get("final_cached_listing") is not None and obs["final_cached_listing"] != obs["final_listing"]:
+        ctx.fail("cached_reader_agrees_with_files/completed", inp, obs["final_cached_listing"], None,
+                 note="after the completed command a reader through the cache reports %r, from the record files %r"
+                 % (obs["final_cached_listing"], obs["final_listing"]))
     for st in obs["states"]:
         k = st["k"]
         ctx.evaluations += 1
@@ -531,16 +811,21 @@ def check_case(ctx, case, obs, ans):
         if st["snap"]["odd"]:
             ctx.disagree("crash_state", {**inp, "k": k}, st["snap"]["odd"], None, note="unexpected directory entries")
         impl_fs = canon_fs(st["snap"]["files"], st["snap"]["dirs"])
+        impl_tabs = canon_tabs(st["snap"].get("tabs"))
         mo = None
-        if k < len(mstates):
-            ms = mstates[k]
+        if k < len(kmap) and kmap[k] < len(mstates):
+            ms = mstates[kmap[k]]
             mo_fs = canon_fs(ms["fs"]["files"], ms["fs"]["dirs"])
-            mo = {"fs": mo_fs, "listing": model_listing(ms["listing"])}
+            mo = {"fs": mo_fs, "tabs": canon_tabs(ms.get("tabs")), "listing": model_listing(ms["listing"])}
             if impl_fs != mo_fs:
                 ctx.disagree("crash_state", {**inp, "k": k}, impl_fs, mo_fs)
+            elif impl_tabs != mo["tabs"]:
+                ctx.disagree("crash_tables", {**inp, "k": k}, impl_tabs, mo["tabs"])
+            elif canon_cache(st["snap"].get("cache")) != canon_cache(ms.get("cache")):
+                ctx.disagree("crash_cache", {**inp, "k": k}, canon_cache(st["snap"].get("cache")), canon_cache(ms.get("cache")))
             elif st["listing"] != mo["listing"]:
                 ctx.disagree("crash_listing", {**inp, "k": k}, st["listing"], mo["listing"])
-        impl_out = {"fs": impl_fs, "listing": st["listing"]}
+        impl_out = {"fs": impl_fs, "tabs": impl_tabs, "listing": st["listing"]}
         for clause, finding, note in oracle(cmd, obs, st):
             ctx.fail(clause, {**inp, "k": k}, impl_out, mo, note=note, finding=finding)
             ctx.hist("oracle=" + clause + ("/" + finding if finding else ""))
@@ -596,41 +881,61 @@ def enum_states():
         yield hist
 
 
+def _floors(ctx):
+    if ctx.distinct_nontrivial >= 16 and min(ctx.histogram.get("cache-save=generic", 0), ctx.histogram.get("cache-save=Linux", 0)) < 10:
+        raise common.InfraError("degenerate distribution: crash points inside the writes of the product cache: %d saves of the "
+                                "last flavor's file (generic), %d of Linux" % (ctx.histogram.get("cache-save=generic", 0),
+                                                                               ctx.histogram.get("cache-save=Linux", 0)))
+    if ctx.evaluations and ctx.distinct_nontrivial < 16:
+        raise common.InfraError("degenerate distribution: %d commands with effects" % ctx.distinct_nontrivial)
+    for k in ("cmd=declaretab", "cmd=undeclare-noversion"):
+        if ctx.distinct_nontrivial >= 40 and ctx.histogram.get(k, 0) + ctx.histogram.get(k + "+tag", 0) < 2:
+            raise common.InfraError("degenerate distribution: %d cases of class %s" % (ctx.histogram.get(k, 0), k))
+
+
 def run(ctx):
-    import time
+    """Order (also under ctx.escalated, i.e. whenever the mirrored source has changed): (1) the corpus, (2) the ORDINARY quick
+    portion - random histories with every command kind drawn from one pool, so that every class gets its share - and its
+    distribution floors, and only then (3) the enlarged budget of the thorough tier / an escalated run: the exhaustive
+    family and more random histories."""
     cc = corpus_cases()
     ctx.hist("corpus", len(cc))
     if cc:
         evaluate(ctx, cc)
-    if ctx.tier == "thorough" or ctx.escalated:
-        # every crash point of every command of flavor 0 on pa from every state of the single-product universe
-        # (the states come in flavor-symmetric pairs, so the commands of flavor 1 are covered up to renaming)
-        cmds = [c for c in all_commands() if c["p"] == 0 and c["f"] == 0]
-        reserve = 0.15 * (ctx.deadline - ctx.t0)          # keep some of the budget for the random histories
-        batch, nst, complete = [], 0, True
-        for hist in enum_states():
-            if time.time() > ctx.deadline - reserve:
-                complete = False
-                ctx.note("thorough enumeration stopped by the time budget after %d of 324 states" % nst)
-                break
-            batch += [{"history": hist, "cmd": c} for c in cmds]
-            nst += 1
-            if nst % 12 == 0:
-                evaluate(ctx, batch)
-                batch = []
-        if batch:
-            evaluate(ctx, batch)
-        ctx.hist("enumerated-states", nst)
-        if complete:
-            ctx.note("exhaustive: all 324 states of the single-product universe x %d commands x every crash point" % len(cmds))
-    nstates = ctx.n(24, 120)
+    big = ctx.tier == "thorough" or ctx.escalated
+    # (2) the ordinary quick portion, first and completely
     done = 0
-    soft = ctx.t0 + (100 if ctx.tier == "quick" and not ctx.escalated else 1e9)   # keep the quick tier well under 3 minutes
-    while done < nstates and not ctx.out_of_time() and time.time() < soft:
-        evaluate(ctx, gen_cases(ctx.rng, 6, ctx.n(8, 24)))
+    soft = ctx.t0 + (45 if ctx.tier == "quick" else 1e9)        # keeps the quick tier under 3 minutes on a loaded machine
+    while done < 24 and not ctx.out_of_time() and (time.time() < soft or done == 0):
+        evaluate(ctx, gen_cases(ctx.rng, 4, 6), sample=(ctx.tier == "quick"))
+        done += 4
+    _floors(ctx)
+    if not big:
+        return
+    # (3) every crash point of every command of flavor 0 on pa from every state of the single-product universe
+    # (the states come in flavor-symmetric pairs, so the commands of flavor 1 are covered up to renaming)
+    cmds = [c for c in all_commands() if c["p"] == 0 and c["f"] == 0]
+    reserve = 0.25 * max(0.0, ctx.deadline - time.time())      # keep some of the budget for more random histories
+    batch, nst, complete = [], 0, True
+    for hist in enum_states():
+        if time.time() > ctx.deadline - reserve:
+            complete = False
+            ctx.note("exhaustive enumeration stopped by the time budget after %d of 324 states" % nst)
+            break
+        batch += [{"history": hist, "cmd": c} for c in cmds]
+        nst += 1
+        if nst % 12 == 0:
+            evaluate(ctx, batch)
+            batch = []
+    if batch:
+        evaluate(ctx, batch)
+    ctx.hist("enumerated-states", nst)
+    if complete:
+        ctx.note("exhaustive: all 324 states of the single-product universe x %d commands x every crash point" % len(cmds))
+    while done < 120 and not ctx.out_of_time():
+        evaluate(ctx, gen_cases(ctx.rng, 6, 24))
         done += 6
-    if ctx.evaluations and ctx.distinct_nontrivial < 20:
-        raise common.InfraError("degenerate distribution: %d commands with effects" % ctx.distinct_nontrivial)
+    _floors(ctx)
 
 
 def replay(ctx, rp):
